@@ -58,6 +58,9 @@ def call(spec):
         elif kind == "frombank": r = str(BIC.from_bank_code(spec[1], spec[2]))
         elif kind == "bankof":
             x = IBAN(spec[1], allow_invalid=True); r = [x.bank_name, str(x.bic), x.bank and x.bank.get("bank_code")]
+        elif kind == "fields":
+            x = IBAN(spec[1], allow_invalid=True)
+            r = [x.bank_code, x.branch_code, x.account_code, x.national_checksum_digits, x.account_type, str(x.bic), x.bank_name]
         elif kind == "algo": r = algorithms[spec[1]].validate([spec[2]], "")
         elif kind == "natl": r = BBAN(spec[1], spec[2]).validate_national_checksum()
         else: r = "?"
@@ -131,6 +134,16 @@ def call_list(seed):
     for cc in ("DE", "PL", "SI", "GB", "NO", "FR", ""):
         for sd in (1, 2):
             calls += [["rand", cc, sd, True], ["rand", cc, sd, False]]
+    # component accessors of every country (reads with defaults on sparse table entries), around seeded generation
+    for cc in ccs:
+        t = IbanTask(cc)
+        s = t.sample(rnd)
+        bare = "positions" not in tab[cc]
+        if bare:
+            calls.append(["rand", cc, 5, False])
+        calls.append(["fields", s["p"]])
+        if bare:
+            calls += [["rand", cc, 5, False], ["iban", s["p"], False]]
     calls += [["lookup", "DE", "43060967"], ["lookup", "DE", "01010101"], ["frombank", "FR", "30004"],
               ["frombank", "PL", "10100055"], ["bankof", "DE89370400440532013000"], ["bankof", "PL61109010140000071219812874"]]
     return calls
